@@ -200,9 +200,11 @@ Ltac fin1 :=
 
 Ltac fin :=
   fin0;
+  try solve [ fin1 ];
   match goal with
   | s : shared |- _ =>
-      destruct (queue s) as [|[|?]] eqn:?; destruct (requests s) as [|? [|? ?]] eqn:?; fin1
+      destruct (queue s) as [|[|?]] eqn:?; try solve [ fin1 ];
+      destruct (requests s) as [|? [|? ?]] eqn:?; fin1
   end.
 
 Lemma upd_forall_elim : forall (Q : wkst -> Prop) w me x,
